@@ -1,0 +1,39 @@
+//! Verification hooks (compiled only with `--cfg xml_rs_verif`).
+//!
+//! A thread-local logical step counter. Recursive grammar productions and evaluator loops call
+//! `tick()`; a monitor may set a budget, after which `tick()` unwinds with a `BudgetExceeded`
+//! payload so that a run-away computation can be cut off deterministically.
+
+use std::cell::Cell;
+
+pub struct BudgetExceeded(pub u64);
+
+thread_local! {
+    static STEPS: Cell<u64> = const { Cell::new(0) };
+    static BUDGET: Cell<u64> = const { Cell::new(u64::MAX) };
+}
+
+#[inline]
+pub fn tick() {
+    let n = STEPS.with(|s| {
+        let n = s.get() + 1;
+        s.set(n);
+        n
+    });
+    if n > BUDGET.with(|b| b.get()) {
+        BUDGET.with(|b| b.set(u64::MAX));
+        std::panic::panic_any(BudgetExceeded(n));
+    }
+}
+
+pub fn reset() {
+    STEPS.with(|s| s.set(0));
+}
+
+pub fn read() -> u64 {
+    STEPS.with(|s| s.get())
+}
+
+pub fn set_budget(budget: u64) {
+    BUDGET.with(|b| b.set(budget));
+}
